@@ -4,12 +4,13 @@
 cd /verif || exit 2
 OUT=seeded/RESULTS.txt
 : > $OUT
-for d in seeded/*/; do
+for d in seeded/C*/; do
   id=$(basename $d)
   p=$(echo $id | cut -d- -f1)
-  r=$(./tools/try_mutant.sh $p /verif/$d/patch.diff quick 2>&1)
+  r=$(NO_REBUILD=1 ./tools/try_mutant.sh $p /verif/$d/patch.diff quick 2>&1)
   res=$(echo "$r" | grep RESULT | sed 's/ (.*//')
   sigs=$(echo "$r" | grep "violation signature" | sed 's/.*signature: //' | head -3 | tr '\n' ';')
   echo "$id $res  $sigs" | tee -a $OUT
 done
+./check build > /dev/null 2>&1
 git -C /repo status --short | head -3
